@@ -130,7 +130,24 @@ func lastMatching(slots []slot, x *lw) uint64 {
 	return last
 }
 
+// invalidKLw counts generated list-then-watch cases outside c06_validb (revisions of the resolved writes not strictly
+// increasing): none is expected; the Coq side counts such a case as a disagreement. faultCases counts the
+// unknown-outcome cases (KLf), which c06_validb excludes by definition (their theorems are in Proofs/C06Faults.v).
+var invalidKLw, faultCases int
+
+func slotsValid(slots []slot) bool {
+	for i := 1; i < len(slots); i++ {
+		if slots[i-1].rev >= slots[i].rev {
+			return false
+		}
+	}
+	return true
+}
+
 func (x *lw) caseKLw(kind string, slots []slot, got []ev, lists []lst, outcomes map[string]bool, extra map[string]interface{}) lib.Case {
+	if !slotsValid(slots) {
+		invalidKLw++
+	}
 	ss := make([]string, len(slots))
 	for i, s := range slots {
 		ss[i] = s.coq()
@@ -519,6 +536,7 @@ func faultRun(w *lib.Writer, rnd *lib.Rand, scratch string, verb int, applied bo
 		if x.werr != nil {
 			continue
 		}
+		faultCases++
 		w.Add(c)
 		if fail != "" && i == 0 {
 			w.Fail(lib.ImplFailure{CaseID: w.Len() - 1, What: fail, Case: c.JSON})
